@@ -306,6 +306,10 @@ func recordTime(args []string) int {
 	for i := 0; i < *n; i++ {
 		base := times[rng.Intn(*n)] // a local midnight
 		t := base.Add(12 * time.Hour)
+		if i%2 == 1 {
+			// a host-supplied time with a fraction of a second (and a sub-millisecond part now and then)
+			t = t.Add(time.Duration(1+rng.Intn(999))*time.Millisecond + time.Duration(rng.Intn(2)*rng.Intn(1000000))*time.Nanosecond)
+		}
 		_, off1 := t.Zone()
 		dy, dm, dd := int64(rng.Intn(9)-4), int64(rng.Intn(61)-30), int64(rng.Intn(801)-400)
 		if i%3 == 0 {
